@@ -101,6 +101,32 @@ class ClassInfo:
         return None
 
 
+_ANCHORS = None
+
+
+def _anchor_names():
+    """Names the rules use to anchor a function (string constants in sa/rules/*.py that look like private method names):
+    a helper a rule anchors by name is left in place by A-NORM's helper inlining."""
+    global _ANCHORS
+    if _ANCHORS is None:
+        import re
+
+        out = set()
+        rules_dir = os.path.join(os.path.dirname(os.path.abspath(__file__)), "rules")
+        for fn in os.listdir(rules_dir) if os.path.isdir(rules_dir) else []:
+            if fn.endswith(".py"):
+                try:
+                    t = ast.parse(open(os.path.join(rules_dir, fn), encoding="utf-8").read())
+                except SyntaxError:
+                    continue
+                for n in ast.walk(t):
+                    if isinstance(n, ast.Constant) and isinstance(n.value, str):
+                        for m in re.findall(r"(?<![A-Za-z0-9_])_[a-z][a-z0-9_]*", n.value):
+                            out.add(m)
+        _ANCHORS = frozenset(out)
+    return _ANCHORS
+
+
 class Program:
     def __init__(self, root: str):
         self.root = os.path.abspath(root)
@@ -127,7 +153,7 @@ class Program:
                 raise AnalysisError(f"cannot parse {path}: {exc}") from exc
             from .normalise import normalise
 
-            self.normalised[fn] = normalise(tree)
+            self.normalised[fn] = normalise(tree, keep=_anchor_names())
             name = fn[:-3]
             mod = Module(
                 name=name,
